@@ -206,6 +206,11 @@ func genUnsortedDoc(t *rapid.T) interface{} {
 		"nested": []interface{}{[]interface{}{2.0, 1.0}, []interface{}{0.0}, "x"},
 		"o1":     map[string]interface{}{"k": 1.0, "j": []interface{}{2.0, 1.0}},
 		"o2":     map[string]interface{}{"k": 2.0, "l": 3.0},
+		// arrays that are in order already (a function that has nothing to do may hand its argument on)
+		"sorted": []interface{}{1.0, 2.0, 3.0, 5.0},
+		"sstrs":  []interface{}{"a", "b", "c"},
+		"one":    []interface{}{7.0},
+		"ranked": []interface{}{map[string]interface{}{"r": 1.0, "v": "x"}, map[string]interface{}{"r": 2.0, "v": "y"}, map[string]interface{}{"r": 2.0, "v": "z"}},
 	}
 }
 
@@ -217,6 +222,11 @@ var c06Templates = []string{
 	"sort_by(people[*], &age)", "people[*].{n: name, t: sort(tags)}", "sort_by(nested[?type(@)=='array'], &length(@))", "o1.j | sort(@) | reverse(@)",
 	"to_string(nums)", "to_string(@)", "nums[*].to_string(@)", "map(&to_string(@), nums)", "to_string(nums[1])", "[to_string(nums[2]), to_string(nums[3])]", "strs[*].to_number(@)", "map(&to_number(@), strs)", "strs[*].reverse(@)", "strs[*].length(@)",
 	"sort(nums) | to_string(@)", "to_string(people)", "{a: to_string(nums), b: nums}", "nums[*].abs(@)", "nums[*].ceil(@)", "nums[*].floor(@)", "max(nums)", "min(nums)", "sort_by(nums, &@)", "nums[?@ < `0`]", "nums[?@ >= `0`]",
+	// identity-like inner calls on arrays that are sorted already, consumed by a call that reorders; and the sort idioms
+	"reverse(sort(sorted))", "reverse(sort(sstrs))", "sort(sorted)", "reverse(sort_by(ranked, &r))", "sort_by(ranked, &r)", "reverse(map(&@, sorted))", "reverse(to_array(sorted))", "reverse(not_null(sorted))", "reverse(sorted[*])", "reverse(sorted[:])",
+	"reverse(sorted[::1])", "reverse(sort_by(sorted, &@))", "sort(sort(sorted))", "reverse(reverse(sorted))", "reverse(sorted || nums)", "reverse((sorted))", "reverse(sorted | @)", "sort(one)", "reverse(one)", "reverse(sort(one))", "reverse(keys(o1))", "reverse(values(o2))",
+	"sort_by(ranked, &r)[-1]", "sort_by(ranked, &r) | [-1]", "sort_by(ranked, &r)[-1].v", "sort_by(ranked, &r)[0]", "sort_by(people, &age)[-1]", "sort_by(people, &age) | [-1]", "sort_by(people, &age)[-1].name", "sort_by(people, &name)[0]", "sort(nums)[-1]", "sort(nums) | [0]",
+	"sort_by(people, &age)[1]", "sort_by(people, &age)[-2:]", "reverse(sort_by(people, &age))[0]", "max_by(ranked, &r)", "min_by(ranked, &r)", "max_by(ranked, &r).v", "sort_by(ranked, &r)[:1]", "sort_by(ranked, &r) | [0] | v",
 	"max_by(people, &age).tags | sort(@)", "join(',', strs)", "sum(nums)", "avg(nums)", "contains(nums, `1`)", "max(nums)", "min(strs)", "sort(strs) | join('', @)", "length(nums)", "sort_by(people, &age) | [0] | merge(@, o1)",
 }
 
@@ -633,6 +643,23 @@ func predSubst(c Case) (r Result) {
 		r.Violation = "replacing a root-evaluated sub-expression by a literal of its value changes the result"
 		r.Expected, r.Got = substituted+" => "+show(o2.Val), whole+" => "+show(o1.Val)
 		return
+	}
+	// the same without the parentheses this check puts around the sub-expression, wherever they
+	// are redundant (the reference parser builds the same tree): an implementation that
+	// recognises an idiom by its spelling, C[X], sees it only then
+	bare := strings.Replace(ctx, "%s", s, -1)
+	if nb, stb, eb := ref.ParseText(bare); eb == nil && stb == ref.LexOK && ref.Dump(nb) == ref.Dump(n) {
+		o3 := libSearch(bare, ref.DeepCopy(doc))
+		if o3.Panic != nil {
+			r.Violation = "Search panicked"
+			r.Got = showOut(o3)
+			return
+		}
+		if (o3.Err != nil) != (o2.Err != nil) || (o3.Err == nil && !sameModuloOrder(o3.Val, o2.Val, want)) {
+			r.Violation = "replacing a root-evaluated sub-expression by a literal of its value changes the result (sub-expression written without redundant parentheses)"
+			r.Expected, r.Got = substituted+" => "+showOut(o2), bare+" => "+showOut(o3)
+			return
+		}
 	}
 	if _, isLit := mustNode(s); !isLit {
 		r.Nontrivial = true
